@@ -433,7 +433,7 @@ def check_mro(world: Dict[str, Any], system: Any) -> List[Viol]:
                     out.append(('find-wrong-definer', f'M{cid}.find({name!r}) -> {found!r}, Python: M{exp_id} defined in M{definer}'))
                 # docstring inheritance for the class's own undocumented members
                 own = defs[str(cid)]['members'].get(name)
-                if own is not None and defs[str(own)].get('nodoc'):
+                if own is not None and defs[str(own)].get('nodoc') and not defs[str(own)].get('emptydoc'):
                     member = cls.contents.get(name)
                     if member is None:
                         continue
@@ -441,7 +441,11 @@ def check_mro(world: Dict[str, Any], system: Any) -> List[Viol]:
                     exp_src = None
                     for c in want:
                         mid = defs[str(c)]['members'].get(name)
-                        if mid is not None and not defs[str(mid)].get('nodoc'):
+                        if mid is None:
+                            continue
+                        if defs[str(mid)].get('emptydoc'):
+                            break         # __doc__ == '' is found first: no documentation is inherited from further up
+                        if not defs[str(mid)].get('nodoc'):
                             exp_src = mid
                             break
                     got_src = None
